@@ -30,6 +30,7 @@ func init() {
 		"bytes.NewReader":             extBytesNewReader,
 		"(*bytes.Reader).ReadByte":    extStreamReadByte,
 		"(*bytes.Reader).Read":        extStreamRead,
+		"(*bytes.Reader).Len":         extReaderLen,
 		"(*bufio.Reader).ReadByte":    extStreamReadByte,
 		"(*bufio.Reader).Read":        extStreamRead,
 		"(*strings.Builder).WriteByte": extBuilderWriteByte,
@@ -900,4 +901,10 @@ func extIoCopyN(vc *VC, fr *Frame, st *State, args []Val, pos token.Pos) []Outco
 		res = append(res, Outcome{St: s3, Ret: []Val{vc.idx(0), vc.newError(s3, "copyn")}})
 	}
 	return res
+}
+
+
+func extReaderLen(vc *VC, fr *Frame, st *State, args []Val, pos token.Pos) []Outcome {
+	_, s := vc.getStream(st, args[0])
+	return one(st, vc.iSub(s.Len, s.Pos))
 }
